@@ -183,3 +183,23 @@ def run_mode(ctx, mode):
 
 def run(ctx):
     run_mode(ctx, "C01")
+
+
+def replay_mode(ctx, rec, mode):
+    """re-run one recorded problem against the current tree; exit 1 iff the judge still reports a violation"""
+    P = rec["data"]["problem"]
+    r = simobs.observe(P, 6, 400, mode, seed=ctx.seed)
+    r["pid"] = 1
+    if r["skip"]:
+        print("replay: problem skipped (%s)" % r["skip"])
+        return 0
+    fails, batch, _ = judge(ctx, [r], mode, "replay")
+    for f in fails:
+        print("REPRODUCED property=%s clause=%s" % (ctx.pid, f[2]))
+    if not fails:
+        print("replay: no violation on the current tree")
+    return 1 if fails else 0
+
+
+def replay(ctx, rec):
+    return replay_mode(ctx, rec, "C01")
